@@ -628,14 +628,15 @@ func (d *Decimal) Modf(integ, frac *Decimal) {
 
 	// No fractional part.
 	if d.Exponent > 0 {
+		// Copy d before zeroing frac: frac may be d itself.
+		if integ != nil {
+			integ.Set(d)
+		}
 		if frac != nil {
 			frac.Form = d.Form
 			frac.Negative = neg
 			frac.Exponent = 0
 			frac.Coeff.SetInt64(0)
-		}
-		if integ != nil {
-			integ.Set(d)
 		}
 		return
 	}
@@ -643,20 +644,24 @@ func (d *Decimal) Modf(integ, frac *Decimal) {
 	exp := -int64(d.Exponent)
 	// d < 0 because exponent is larger than number of digits.
 	if exp > nd {
+		// Copy d before zeroing integ: integ may be d itself.
+		if frac != nil {
+			frac.Set(d)
+		}
 		if integ != nil {
 			integ.Form = d.Form
 			integ.Negative = neg
 			integ.Exponent = 0
 			integ.Coeff.SetInt64(0)
 		}
-		if frac != nil {
-			frac.Set(d)
-		}
 		return
 	}
 
 	var tmpE BigInt
 	e := tableExp10(exp, &tmpE)
+
+	// integ may be d itself: remember d's exponent before integ's is set.
+	dexp := d.Exponent
 
 	var icoeff *BigInt
 	if integ != nil {
@@ -673,7 +678,7 @@ func (d *Decimal) Modf(integ, frac *Decimal) {
 	if frac != nil {
 		icoeff.QuoRem(&d.Coeff, e, &frac.Coeff)
 		frac.Form = d.Form
-		frac.Exponent = d.Exponent
+		frac.Exponent = dexp
 		frac.Negative = neg
 	} else {
 		// This is the frac == nil, which means integ must not be nil since they both
